@@ -1,10 +1,12 @@
 """C17 harness.
 (a) correspondence: numpy's sign / heaviside switches and the history update vs the model;
 (b) the property on the real code: for all 14 splits x AT1 / AT2, isotropic and anisotropic materials, 2D and 3D, generic and
-    degenerate strain states (zero, hydrostatic, uniaxial, two equal principal values, pure shear, near-degenerate), mixed
-    within one element: finite parts, sigma+ + sigma- = C eps, psi+ + psi- = 1/2 eps.C eps, projectors vs an independent
-    eigen-decomposition; whole strain fields of any size (1 ... 65537 elements, 1 - 4 points per element, generic states): every
-    point against numpy.linalg.eigh (Miehe, Zhang, He) or against the same points evaluated in small batches in another order;
+    degenerate strain states (zero, hydrostatic, uniaxial, two equal principal values, pure shear, near-degenerate, principal
+    values equal up to rounding), mixed within one element: finite parts, sigma+ + sigma- = C eps, psi+ + psi- = 1/2 eps.C eps,
+    sigma+ / psi+ / cP eps of Miehe, Zhang, He and the projectors vs an independent eigen-decomposition; whole strain fields of any
+    size (1 ... 65537 elements, 1 - 4 points per element, generic states; 2D also fields of equi-biaxial states perturbed at the
+    level of the rounding errors): every point against numpy.linalg.eigh (Miehe, Zhang, He) or against the same points evaluated
+    in small batches in another order;
     along load / unload histories of a simulation with the three irreversibility solvers: history energy
     and damage never decrease between saved steps, zero loading keeps zero damage."""
 
@@ -69,6 +71,14 @@ def strain_states(rng, dim):
         out.append(("two equal -", diag([-0.02, 0.04, -0.02])))
         out.append(("two equal, axis-aligned", np.diag([0.02, 0.02, 0.05])))
     out.append(("axis-aligned", np.diag(([0.03, -0.01, 0.02])[:dim])))
+    S01 = np.zeros((dim, dim))
+    S01[0, 1] = S01[1, 0] = 1.0
+    # principal values that coincide up to rounding, as a finite element computation produces them (equi-biaxial stretch with a shear
+    # component / a difference of the normal components at the level of the rounding errors, or below it)
+    out.append(("equal up to rounding, shear 1e-18 of the stretch", 0.001 * np.eye(dim) + 1e-21 * S01))
+    out.append(("equal up to rounding, compression", -0.001 * np.eye(dim) - 3e-22 * S01))
+    out.append(("equal up to rounding, one ulp apart", np.diag([0.02, 0.02 * (1 + 2.0 ** -52)] + [0.02] * (dim - 2)) + 2e-22 * S01))
+    out.append(("equal up to rounding, rotated frame", diag([0.02] * dim) + diag([0.0, 0.02 * 2.0 ** -51] + [0.0] * (dim - 2))))
     out.append(("near-degenerate", diag([0.02, 0.02 * (1 + 1e-9)] + ([0.01] if dim == 3 else []))))
     out.append(("tiny", 1e-12 * diag(g)))
     return out
@@ -137,6 +147,20 @@ def generic_field(nrng, dim, Ne, nPg, scale):
     return kelvin_v((Q * (scale * w)[..., None, :]) @ np.swapaxes(Q, -1, -2))
 
 
+def rounding_field(nrng, dim, Ne, nPg, scale):
+    """strain field (Ne, nPg, 3 or 6) of a (nearly) equi-biaxial / hydrostatic stretch or compression as a computation produces it: at
+    every point eps = s I + perturbation, s of either sign, the perturbation of all components at the level of the rounding errors
+    of the stretch or below (2^-52 ... 2^-75 of the scale); one point in ten is exactly s I, one in twenty exactly zero"""
+    sI = nrng.uniform(-1.0, 1.0, size=(Ne, nPg, 1)) * np.array([1.0] * dim + [0.0] * (3 * dim - 3 - dim))
+    k = nrng.integers(52, 76, size=(Ne, nPg, 1))
+    pert = nrng.normal(size=(Ne, nPg, 3 * dim - 3)) * 2.0 ** (-k)
+    u = nrng.random(size=(Ne, nPg, 1))
+    return scale * np.where(u < 0.05, 0.0, np.where(u < 0.15, sI, sI + pert))
+
+
+FIELDS = {"generic_field": generic_field, "rounding_field": rounding_field}
+
+
 def large_fields(res, rng, splits, thorough):
     """The splits are functions of the strain at ONE integration point: on a field of any size (one element ... several ten
     thousand elements, one or several points per element) every point carries the split of its own strain.
@@ -150,21 +174,25 @@ def large_fields(res, rng, splits, thorough):
         fields = [(rng.choice([1, 2, 7]), 1), (rng.choice([1021, 2053]), 4), (big, 1)]
         if thorough:
             fields += [(b, 1) for b in (30011, 50021, 65537) if b != big] + [(16411, 3)]
-        jobs = [(s, f) for s in ref_splits for f in fields]
+        jobs = [(s, f, "generic_field") for s in ref_splits for f in fields]
         big2 = rng.choice([25013, 30011])
-        jobs += [(s, (big2, 1)) for s in (others if thorough else rng.sample(others, 3 if dim == 3 else 6))]
-        for split, (Ne, nPg) in jobs:
+        jobs += [(s, (big2, 1), "generic_field") for s in (others if thorough else rng.sample(others, 3 if dim == 3 else 6))]
+        if dim == 2:
+            # principal values equal up to rounding at every point (3D: known finding, reported by (b))
+            jobs += [(s, f, "rounding_field") for s in ref_splits for f in [(rng.choice([1, 3]), rng.choice([1, 4])), (rng.choice([257, 4099]), 3)]]
+        for split, (Ne, nPg), kind in jobs:
             mat = make_material(rng, dim, split in ISOT_ONLY or bool(rng.getrandbits(1)))
             fseed = rng.randint(0, 2 ** 31 - 1)
             scale = rng.choice([1e-5, 1e-3, 5e-2])
             ident = dict(scenario="whole strain field", split=split, dim=dim, material=type(mat).__name__, Ne=Ne, nPg=nPg, field_seed=fseed, strain_scale=scale,
-                         field="generic_field(numpy.random.default_rng(field_seed), dim, Ne, nPg, strain_scale)")
+                         field=kind + "(numpy.random.default_rng(field_seed), dim, Ne, nPg, strain_scale)")
+            knd = "" if kind == "generic_field" else " principal values equal up to rounding"
             if isinstance(mat, E_.Isotropic):
                 ident.update(E=mat.E, v=mat.v, planeStress=bool(mat.planeStress))
-            eps = generic_field(np.random.default_rng(fseed), dim, Ne, nPg, scale)
+            eps = FIELDS[kind](np.random.default_rng(fseed), dim, Ne, nPg, scale)
             FE = lambda a: FeArray.asfearray(np.array(a, dtype=float))  # noqa: E731
             res.count(f"field:{split}")
-            res.case(("field", split, dim, Ne, nPg, type(mat).__name__))
+            res.case(("field", split, dim, Ne, nPg, type(mat).__name__, kind))
             try:
                 pfm = Models.PhaseField(mat, split, "AT2", 0.5, 0.1)
                 sP, sM = (np.asarray(a, dtype=float) for a in pfm.Calc_Sigma_e_pg(FE(eps)))
@@ -179,12 +207,12 @@ def large_fields(res, rng, splits, thorough):
                     rP[perm] = np.concatenate([np.asarray(a, dtype=float) for a, _ in parts])
                     rM[perm] = np.concatenate([np.asarray(b, dtype=float) for _, b in parts])
             except Exception as ex:  # noqa: BLE001
-                res.fail(f"field raises split={split} dim={dim}", f"{type(ex).__name__}: {str(ex)[:150]} on a strain field of {Ne} elements x {nPg} points", ident)
+                res.fail(f"field raises split={split} dim={dim}{knd}", f"{type(ex).__name__}: {str(ex)[:150]} on a strain field of {Ne} elements x {nPg} points", ident)
                 continue
             C = np.asarray(mat.C, dtype=float)
             sig = eps @ C.T
             psi = 0.5 * np.sum(sig * eps, axis=-1)
-            ssc, psc = np.abs(sig).max(), np.abs(psi).max()
+            ssc, psc = max(np.abs(sig).max(), 1e-300), max(np.abs(psi).max(), 1e-300)
 
             def first_bad(err_e, what):
                 """err_e: one relative error per element"""
@@ -195,7 +223,7 @@ def large_fields(res, rng, splits, thorough):
                 return f"{what}: {bad.size} of {Ne} elements are wrong, e.g. elements {bad[:4].tolist()} (relative error {err_e[e]:.2e})", dict(ident, element=e, strain=eps[e].tolist())
 
             if sP.shape != eps.shape or sM.shape != eps.shape:
-                res.fail(f"field shape split={split} dim={dim}", f"sigma+ has shape {sP.shape} for a strain field of shape {eps.shape}", ident)
+                res.fail(f"field shape split={split} dim={dim}{knd}", f"sigma+ has shape {sP.shape} for a strain field of shape {eps.shape}", ident)
                 continue
             # the tensor whose spectral decomposition the split uses; in 3D the closed-form decomposition near repeated principal
             # values is a known finding (reported by (b)): elements with such a point are not compared here
@@ -217,17 +245,17 @@ def large_fields(res, rng, splits, thorough):
                         res.notes.append(f"field {split} dim={dim} Ne={Ne}: only {int(well.sum())} elements with separated principal values")
             out = first_bad(np.where(well, np.where(np.isfinite(sP + sM), np.abs(sP + sM - sig), np.inf).max(axis=(1, 2)) / ssc, 0.0), "sigma+ + sigma- != C eps")
             if out:
-                res.fail(f"field: stress not partitioned split={split} dim={dim}", f"split {split}, field of {Ne} elements x {nPg} points: " + out[0], out[1])
+                res.fail(f"field: stress not partitioned split={split} dim={dim}{knd}", f"split {split}, field of {Ne} elements x {nPg} points: " + out[0], out[1])
                 continue
             if split not in ref_splits:
                 err = np.maximum(np.abs(sP - rP), np.abs(sM - rM)).max(axis=(1, 2)) / ssc
                 out = first_bad(np.where(well, err, 0.0), "sigma+ / sigma- of the field evaluated at once differ from the same points evaluated in small batches")
                 if out:
-                    res.fail(f"field: split depends on the field size split={split} dim={dim}", f"split {split}, field of {Ne} elements x {nPg} points: " + out[0], out[1])
+                    res.fail(f"field: split depends on the field size split={split} dim={dim}{knd}", f"split {split}, field of {Ne} elements x {nPg} points: " + out[0], out[1])
                 continue
             out = first_bad(np.where(well, np.where(np.isfinite(pP + pM), np.abs(pP + pM - psi), np.inf).max(axis=1) / psc, 0.0), "psi+ + psi- != 1/2 eps.C eps")
             if out:
-                res.fail(f"field: energy not partitioned split={split} dim={dim}", f"split {split}, field of {Ne} elements x {nPg} points: " + out[0], out[1])
+                res.fail(f"field: energy not partitioned split={split} dim={dim}{knd}", f"split {split}, field of {Ne} elements x {nPg} points: " + out[0], out[1])
                 continue
             # independent positive parts, point by point (tpos: positive part of the strain / the stress / C^1/2 eps)
             if split == "Miehe":
@@ -244,7 +272,7 @@ def large_fields(res, rng, splits, thorough):
             err = np.maximum(np.abs(sP - refS).max(axis=(1, 2)) / ssc, np.abs(pP - refP).max(axis=1) / psc)
             out = first_bad(np.where(well, err, 0.0), "sigma+ / psi+ differ from the positive part computed with numpy.linalg.eigh")
             if out:
-                res.fail(f"field: positive part vs eigen-decomposition split={split} dim={dim}", f"split {split}, field of {Ne} elements x {nPg} points: " + out[0], out[1])
+                res.fail(f"field: positive part vs eigen-decomposition split={split} dim={dim}{knd}", f"split {split}, field of {Ne} elements x {nPg} points: " + out[0], out[1])
 
 
 def main():
@@ -341,17 +369,32 @@ def main():
                                 psi = 0.5 * eps @ sig
                                 if not (abs(pP[e, p] + pM[e, p] - psi) <= 1e-8 * max(abs(psi), 1e-24 * scaleC)):
                                     res.fail(KNOWN3D if deg_elem[e] else f"energy not partitioned split={split} dim={dim} state={names[st]}", f"split {split}: psi+ + psi- = {pP[e, p] + pM[e, p]} but 1/2 eps.C eps = {psi} for '{nm}'", idn)
-                                if split == "He" and not deg_elem[e]:
-                                    # independent reference: eps~ = C^1/2 eps, positive principal part of eps~, sigma+ = C^1/2 eps~+, psi+ = 1/2 |eps~+|^2
-                                    lamC, QC = np.linalg.eigh(C)
-                                    rootC = (QC * np.sqrt(lamC)) @ QC.T
-                                    wt, Vt = np.linalg.eigh(unkelvin(rootC @ eps))
-                                    ep_ = kelvin((Vt * np.maximum(wt, 0)) @ Vt.T)
-                                    refS, refP = rootC @ ep_, 0.5 * ep_ @ ep_
+                                if split in ("He", "Miehe", "Zhang") and not deg_elem[e]:
+                                    # independent references with numpy.linalg.eigh, <T>+ the positive principal part of a tensor:
+                                    # He:    eps~ = C^1/2 eps, sigma+ = C^1/2 <eps~>+, psi+ = 1/2 |<eps~>+|^2
+                                    # Miehe: sigma+ = lambda <tr eps>+ I + 2 mu <eps>+, psi+ = lambda/2 <tr eps>+^2 + mu |<eps>+|^2
+                                    # Zhang: sigma+ = <C eps>+, psi+ = 1/2 sigma+ . eps
+                                    def pos_(vec):
+                                        wt, Vt = np.linalg.eigh(unkelvin(vec))
+                                        return kelvin((Vt * np.maximum(wt, 0)) @ Vt.T)
+                                    if split == "He":
+                                        lamC, QC = np.linalg.eigh(C)
+                                        rootC = (QC * np.sqrt(lamC)) @ QC.T
+                                        ep_ = pos_(rootC @ eps)
+                                        refS, refP, what = rootC @ ep_, 0.5 * ep_ @ ep_, "C^1/2 <C^1/2 eps>+"
+                                    elif split == "Miehe":
+                                        lamb_, mu_ = float(mat.get_lambda()), float(mat.get_mu())
+                                        ep_, trp = pos_(eps), max(float(eps[:dim].sum()), 0.0)
+                                        refS = lamb_ * trp * np.array([1.0] * dim + [0.0] * (len(eps) - dim)) + 2 * mu_ * ep_
+                                        refP, what = 0.5 * lamb_ * trp ** 2 + mu_ * ep_ @ ep_, "lambda <tr eps>+ I + 2 mu <eps>+"
+                                    else:
+                                        refS = pos_(sig)
+                                        refP, what = 0.5 * refS @ eps, "<C eps>+"
                                     if not (np.abs(sP[e, p] - refS).max() <= 1e-7 * max(ssc, 1e-12 * scaleC)) or not (abs(pP[e, p] - refP) <= 1e-7 * max(abs(psi), 1e-24 * scaleC)) \
                                             or not (np.abs(cPe @ eps - refS).max() <= 1e-7 * max(ssc, 1e-12 * scaleC)):
-                                        res.fail(f"He positive part split={split} dim={dim} state={names[st]}",
-                                                 f"split He: sigma+ / psi+ / cP eps differ from C^1/2 <C^1/2 eps>+ computed with numpy.linalg.eigh (|d sigma+| = {np.abs(sP[e, p] - refS).max():.2e}, d psi+ = {abs(pP[e, p] - refP):.2e}) for '{nm}'", idn)
+                                        res.fail(f"{split} positive part split={split} dim={dim} state={names[st]}",
+                                                 f"split {split}: sigma+ / psi+ / cP eps differ from {what} computed with numpy.linalg.eigh (|d sigma+| = {np.abs(sP[e, p] - refS).max():.2e}, "
+                                                 f"|d cP eps| = {np.abs(cPe @ eps - refS).max():.2e}, d psi+ = {abs(pP[e, p] - refP):.2e}, psi = {psi:.2e}) for '{nm}'", idn)
         # projectors vs an independent eigen-decomposition (Miehe machinery on the strain itself)
         mat = E_.Isotropic(dim, E=10.0, v=0.25, planeStress=False)
         pfm = Models.PhaseField(mat, "Miehe", "AT2", 0.5, 0.1)
@@ -482,8 +525,9 @@ def main():
                 res.disagree(kind, dict(model=model.tolist(), real=real.tolist()))
     res.search_note = "all splits partition stress and energy on the sampled states and the histories are monotone"
     res.write("14 splits x (AT2, AT1 in thorough) x isotropic / orthotropic / transversely isotropic materials x 2D / 3D x strain states in random principal frames: generic, zero, hydrostatic ±, uniaxial ±, pure shear, "
-              "zero trace, two equal principal values (also axis-aligned), near-degenerate (1e-9), tiny (1e-12), and elements mixing two different states; eigenvalues / projectors vs numpy.linalg.eigh; "
-              "whole strain fields of 1 ... 65537 elements x 1 - 4 points with generic states, every point checked; "
+              "zero trace, two equal principal values (also axis-aligned), near-degenerate (1e-9), equal up to rounding (shear / difference of the normal strains at 1e-18 ... 1e-16 of the stretch), tiny (1e-12), "
+              "and elements mixing two different states; eigenvalues / projectors / positive parts of Miehe, Zhang, He vs numpy.linalg.eigh; "
+              "whole strain fields of 1 ... 65537 elements x 1 - 4 points with generic states, 2D fields of equi-biaxial states perturbed at rounding level, every point checked; "
               "load / unload / zero-load histories with the three irreversibility solvers; distinct = distinct (split, regularisation, dimension, material, state)")
 
 
